@@ -141,6 +141,13 @@ def typed_label_cases(rng, n):
             labels = labels[:m]
         if dt.startswith("float") and rng.random() < 0.4:
             labels[rng.randrange(m)] = "nan"
+        if dt.startswith("float") and rng.random() < 0.3:
+            # runs of DESCENDING labels separated by missing ones: every drop in value sits next to a NaN
+            labels = []
+            for v in srt[::-1]:
+                labels += [v] * rng.randint(1, 3) + ["nan"] * rng.randint(1, 2)
+            labels = labels[:max(3, m)]
+            m = len(labels)
         present = list(dict.fromkeys(x for x in labels if x != "nan"))
         if not present:
             continue
